@@ -1,9 +1,509 @@
 package props
 
-import "verif/internal/core"
+import (
+	"bufio"
+	"bytes"
+	"encoding/json"
+	"fmt"
+	"io"
+	"net/http"
+	"path/filepath"
+	"sort"
+	"strings"
+	"sync"
+	"time"
 
-// C04 — stub, replaced by the real check.
+	"verif/internal/core"
+	"verif/internal/fakes"
+	"verif/internal/rawhttp"
+)
+
+// c04History is one scripted sequence of pending-list replies.
+type c04History struct {
+	Name    string     `json:"name"`
+	IDs     []string   `json:"-"`
+	NumIDs  int        `json:"num_ids"`
+	Replies [][]string `json:"-"`
+	Shape   string     `json:"shape"`
+	Sample  [][]string `json:"first_replies"`
+	SlowPct int        `json:"slow_pct"`
+}
+
+func c04Gen(r *core.Run, idx int, kind string, n int) *c04History {
+	rng := r.Rand(fmt.Sprintf("c04-%d", idx))
+	h := &c04History{Name: fmt.Sprintf("h%d-%s", idx, kind), Shape: kind, NumIDs: n, SlowPct: []int{0, 30, 100}[rng.Intn(3)]}
+	for i := 0; i < n; i++ {
+		h.IDs = append(h.IDs, fmt.Sprintf("s%dh%di%d", r.Seed, idx, i))
+	}
+	ids := h.IDs
+	switch kind {
+	case "repeat-same-reply":
+		for k := 0; k < 2+rng.Intn(4); k++ {
+			h.Replies = append(h.Replies, append([]string(nil), ids...))
+		}
+	case "dup-within-reply":
+		var rep []string
+		for _, id := range ids {
+			for k := 0; k < 1+rng.Intn(3); k++ {
+				rep = append(rep, id)
+			}
+		}
+		rng.Shuffle(len(rep), func(i, j int) { rep[i], rep[j] = rep[j], rep[i] })
+		h.Replies = append(h.Replies, rep)
+	case "permutations":
+		for k := 0; k < 3; k++ {
+			p := append([]string(nil), ids...)
+			rng.Shuffle(len(p), func(i, j int) { p[i], p[j] = p[j], p[i] })
+			h.Replies = append(h.Replies, p)
+		}
+	case "overlapping-subsets":
+		w := 1 + n/3
+		for s := 0; s < n; s += 1 + rng.Intn(w) {
+			e := s + w + rng.Intn(w)
+			if e > n {
+				e = n
+			}
+			h.Replies = append(h.Replies, append([]string(nil), ids[s:e]...))
+		}
+		h.Replies = append(h.Replies, append([]string(nil), ids...))
+	case "relist-until-done": // App Engine style: handled by the fake proxy's Relist mode
+		h.Replies = nil
+	case "relist-after-completion":
+		h.Replies = append(h.Replies, append([]string(nil), ids...), nil) // nil = wait for completion, then relist
+		h.Replies = append(h.Replies, append([]string(nil), ids...))
+	case "one-by-one-then-all":
+		for _, id := range ids {
+			h.Replies = append(h.Replies, []string{id})
+		}
+		h.Replies = append(h.Replies, append([]string(nil), ids...))
+	case "window-edge":
+		// ids[0] listed, then n-1 others (<= 999 distinct), then ids[0] again
+		h.Replies = append(h.Replies, []string{ids[0]})
+		rest := ids[1:]
+		for len(rest) > 0 {
+			k := 50 + rng.Intn(50)
+			if k > len(rest) {
+				k = len(rest)
+			}
+			h.Replies = append(h.Replies, append([]string(nil), rest[:k]...))
+			rest = rest[k:]
+		}
+		h.Replies = append(h.Replies, nil, []string{ids[0]}, []string{ids[0], ids[len(ids)-1]})
+		h.SlowPct = 0
+	}
+	for i := 0; i < len(h.Replies) && i < 3; i++ {
+		rep := h.Replies[i]
+		if len(rep) > 6 {
+			rep = rep[:6]
+		}
+		h.Sample = append(h.Sample, rep)
+	}
+	return h
+}
+
+var c04Kinds = []string{"repeat-same-reply", "dup-within-reply", "permutations", "overlapping-subsets", "relist-until-done", "relist-after-completion", "one-by-one-then-all"}
+
+// C04 — each client request is forwarded at most once.
 func C04(r *core.Run) {
-	r.Broken("check not implemented yet")
-	r.Finish(1)
+	r.SetRule("(a) real agent vs scripted fake proxy: generated histories of pending-list replies (repeats, duplicates within a reply, permutations, overlapping subsets, re-listing until done, re-listing after completion, window-edge histories with up to 999 other IDs between two listings) with delayed fetch/upload; counting backend; (b) real stand-alone proxy with N raw clients and M concurrent pollers speaking the agent protocol; class = history shape x size class x delay profile, or (clients, pollers)")
+	r.Assume("fault-free transport between agent, fake proxy and backend (so Go's transparent retry of idempotent requests cannot occur); nothing is asserted once >= 1000 distinct IDs separate two listings")
+	agentBin := r.MustBuild(r.BuildRepoBinary("./agent", "agent"))
+	serverBin := r.MustBuild(r.BuildRepoBinary("./server", "server"))
+	md, err := fakes.NewMetadata()
+	if err != nil {
+		r.Broken(err.Error())
+		r.Finish(1)
+	}
+	defer md.Close()
+
+	c04PartA(r, agentBin, md)
+	c04PartB(r, serverBin)
+	r.JudgeRaces(core.ParseRaceLogs(filepath.Join(r.WorkDir, "race-")))
+	r.Finish(r.Pick(30, 600))
+}
+
+func c04PartA(r *core.Run, agentBin string, md *fakes.Metadata) {
+	nh := r.Pick(42, 1100)
+	edges := r.Pick(2, 20)
+	lanes := r.Pick(3, 8) // independent agent+proxy+backend triples working through the histories in parallel
+	var hs []*c04History
+	for i := 0; i < nh; i++ {
+		n := []int{1, 2, 5, 20, 50, 120}[i%6]
+		hs = append(hs, c04Gen(r, i, c04Kinds[i%len(c04Kinds)], n))
+	}
+	for i := 0; i < edges; i++ {
+		n := []int{1000, 999, 500, 2}[i%4]
+		hs = append(hs, c04Gen(r, nh+i, "window-edge", n))
+	}
+	var wg sync.WaitGroup
+	ch := make(chan *c04History, len(hs))
+	for _, h := range hs {
+		ch <- h
+	}
+	close(ch)
+	var mu sync.Mutex
+	overlapSigs := map[string]struct{}{}
+	for lane := 0; lane < lanes; lane++ {
+		wg.Add(1)
+		go func(lane int) {
+			defer wg.Done()
+			backend, err := newTokBackend()
+			if err != nil {
+				r.Broken(err.Error())
+				return
+			}
+			defer backend.Srv.Close()
+			px, err := fakes.NewProxy()
+			if err != nil {
+				r.Broken(err.Error())
+				return
+			}
+			defer px.Close()
+			px.ListWait = 50 * time.Millisecond
+			// scripted list replies
+			var smu sync.Mutex
+			var script [][]string
+			var waitFor []string
+			slow := map[string]bool{}
+			px.OnList = func(w http.ResponseWriter, req *http.Request) bool {
+				smu.Lock()
+				if len(script) == 0 {
+					smu.Unlock()
+					return false // default behaviour (pending queue / Relist mode)
+				}
+				rep := script[0]
+				if rep == nil {
+					// barrier: hold this position until the IDs listed so far are complete
+					ids := append([]string(nil), waitFor...)
+					smu.Unlock()
+					for _, id := range ids {
+						px.Wait(id, 20*time.Second)
+					}
+					smu.Lock()
+					if len(script) > 0 && script[0] == nil {
+						script = script[1:]
+					}
+					smu.Unlock()
+					w.WriteHeader(200)
+					w.Write([]byte("[]"))
+					return true
+				}
+				script = script[1:]
+				waitFor = append(waitFor, rep...)
+				smu.Unlock()
+				b, _ := json.Marshal(rep)
+				w.WriteHeader(200)
+				w.Write(b)
+				return true
+			}
+			px.OnFetch = func(id string, w http.ResponseWriter, req *http.Request) bool {
+				smu.Lock()
+				s := slow[id]
+				smu.Unlock()
+				if s {
+					time.Sleep(time.Duration(5+tokHash(id)%40) * time.Millisecond)
+				}
+				return false
+			}
+			agent, err := startAgent(r, agentBin, fmt.Sprintf("agentA%d", lane), md, px.URL(), backend.Srv.Addr(), fmt.Sprintf("bA%d", lane))
+			if err != nil {
+				r.Broken(err.Error())
+				return
+			}
+			defer agent.Kill()
+			for h := range ch {
+				if !agent.Alive() {
+					judgeProcs(r, true, agent)
+					return
+				}
+				// register requests
+				for i, id := range h.IDs {
+					raw := tokRequest("POST", id, 20, 0, "c04.example", tokBytes(id, "req", 64), nil)
+					if h.Shape == "relist-until-done" {
+						continue
+					}
+					px.Store(id, raw, "")
+					if (int(tokHash(id))%100+100)%100 < h.SlowPct {
+						smu.Lock()
+						slow[id] = true
+						smu.Unlock()
+					}
+					_ = i
+				}
+				if h.Shape == "relist-until-done" {
+					px.Relist = true
+					for _, id := range h.IDs {
+						px.Enqueue(id, tokRequest("POST", id, 20, 0, "c04.example", tokBytes(id, "req", 64), nil), "")
+					}
+				} else {
+					smu.Lock()
+					waitFor = nil
+					script = append([][]string(nil), h.Replies...)
+					smu.Unlock()
+				}
+				// wait for completion of every ID
+				missing := 0
+				deadline := 30 * time.Second
+				if len(h.IDs) > 500 {
+					deadline = 90 * time.Second
+				}
+				start := time.Now()
+				for _, id := range h.IDs {
+					rem := deadline - time.Since(start)
+					if rem < time.Second {
+						rem = time.Second
+					}
+					if _, ok := px.Wait(id, rem); !ok {
+						missing++
+					}
+				}
+				// let the script run out (re-listings after completion) and settle
+				for i := 0; i < 400; i++ {
+					smu.Lock()
+					n := len(script)
+					smu.Unlock()
+					if n == 0 {
+						break
+					}
+					time.Sleep(10 * time.Millisecond)
+				}
+				if h.Shape == "relist-until-done" {
+					time.Sleep(150 * time.Millisecond)
+					px.Relist = false
+				}
+				time.Sleep(120 * time.Millisecond)
+				// oracle
+				count := map[string]int{}
+				for _, s := range backend.Seen() {
+					count[s.Tok]++
+				}
+				bad := 0
+				for _, id := range h.IDs {
+					c := count[id]
+					switch {
+					case c > 1:
+						bad++
+						r.Violate("C04:forwarded-more-than-once:"+h.Shape, fmt.Sprintf("history %s: request %s reached the backend %d times", h.Name, id, c), h, map[string]interface{}{"fetches": px.Fetches(id), "uploads": len(px.Uploads(id))})
+					case c == 0:
+						bad++
+						r.Violate("C04:never-forwarded:"+h.Shape, fmt.Sprintf("history %s: request %s was listed and served without error but never reached the backend (fetches=%d)", h.Name, id, px.Fetches(id)), h, nil)
+					}
+					if ups := px.Uploads(id); len(ups) > 1 {
+						bad++
+						r.Violate("C04:answered-more-than-once:"+h.Shape, fmt.Sprintf("history %s: %d responses uploaded for request %s", h.Name, len(ups), id), h, nil)
+					}
+				}
+				_ = missing
+				r.Case(fmt.Sprintf("A|%s|n=%s|slow=%d", h.Shape, c04SizeClass(len(h.IDs)), h.SlowPct))
+				r.Add("ids_listed_part_a", len(h.IDs))
+				if len(h.IDs) > 1 && len(h.IDs) < 30 {
+					r.Sample(h)
+				}
+				mu.Lock()
+				overlapSigs[fmt.Sprintf("%s/%d/%d", h.Shape, len(h.IDs), h.SlowPct)] = struct{}{}
+				mu.Unlock()
+			}
+			judgeProcs(r, true, agent)
+		}(lane)
+	}
+	wg.Wait()
+	r.Set("history_shapes_executed", len(overlapSigs))
+}
+
+func c04SizeClass(n int) string {
+	switch {
+	case n <= 2:
+		return "1-2"
+	case n <= 20:
+		return "3-20"
+	case n <= 200:
+		return "21-200"
+	}
+	return ">200"
+}
+
+// c04PartB: stand-alone proxy hand-off under concurrent pollers.
+func c04PartB(r *core.Run, serverBin string) {
+	type cfg struct{ clients, pollers, perClient int }
+	var cfgs []cfg
+	for _, m := range []int{1, 2, 4, 8} {
+		cfgs = append(cfgs, cfg{16, m, r.Pick(6, 20)})
+	}
+	cfgs = append(cfgs, cfg{64, 4, r.Pick(4, 10)}, cfg{64, 8, r.Pick(4, 10)})
+	if !r.Quick() {
+		for i := 0; i < 54; i++ {
+			cfgs = append(cfgs, cfg{[]int{4, 16, 32, 64}[i%4], []int{1, 2, 3, 4, 8, 16}[i%6], 10})
+		}
+	}
+	batchSigs := map[string]struct{}{}
+	for ci, c := range cfgs {
+		server, addr, err := startServer(r, serverBin, fmt.Sprintf("serverB%d", ci))
+		if err != nil {
+			r.Broken(err.Error())
+			return
+		}
+		var mu sync.Mutex
+		listed := map[string]int{}        // ID -> times listed
+		idTok := map[string]string{}      // ID -> token found in the fetched request
+		pollerOf := map[string][]int{}    // ID -> pollers that received it
+		var batches []string
+		stop := make(chan struct{})
+		var pwg sync.WaitGroup
+		hc := &http.Client{Timeout: 40 * time.Second, Transport: &http.Transport{MaxIdleConnsPerHost: 64}}
+		for p := 0; p < c.pollers; p++ {
+			pwg.Add(1)
+			go func(p int) {
+				defer pwg.Done()
+				for {
+					select {
+					case <-stop:
+						return
+					default:
+					}
+					req, _ := http.NewRequest("GET", "http://"+addr+"/agent/pending", nil)
+					req.Header.Set("X-Inverting-Proxy-Backend-ID", "bB")
+					ctxDone := make(chan struct{})
+					go func() {
+						select {
+						case <-stop:
+							hc.CloseIdleConnections()
+						case <-ctxDone:
+						}
+					}()
+					resp, err := hc.Do(req)
+					close(ctxDone)
+					if err != nil {
+						select {
+						case <-stop:
+							return
+						default:
+						}
+						time.Sleep(5 * time.Millisecond)
+						continue
+					}
+					b, _ := io.ReadAll(resp.Body)
+					resp.Body.Close()
+					var ids []string
+					json.Unmarshal(b, &ids)
+					mu.Lock()
+					batches = append(batches, fmt.Sprintf("p%d:%d", p, len(ids)))
+					for _, id := range ids {
+						listed[id]++
+						pollerOf[id] = append(pollerOf[id], p)
+					}
+					mu.Unlock()
+					for _, id := range ids {
+						go func(id string) {
+							rq, _ := http.NewRequest("GET", "http://"+addr+"/agent/request", nil)
+							rq.Header.Set("X-Inverting-Proxy-Backend-ID", "bB")
+							rq.Header.Set("X-Inverting-Proxy-Request-ID", id)
+							rs, err := hc.Do(rq)
+							if err != nil {
+								return
+							}
+							fb, _ := io.ReadAll(rs.Body)
+							rs.Body.Close()
+							m, _ := rawhttp.ReadRequest(bufio.NewReader(bytes.NewReader(fb)))
+							tok := ""
+							if m != nil {
+								if v := m.Get("X-Tok"); len(v) > 0 {
+									tok = v[0]
+								}
+							}
+							mu.Lock()
+							idTok[id] = tok
+							mu.Unlock()
+							body := "resp-for-" + tok
+							var w rawhttp.Builder
+							w.Line("HTTP/1.1 200 OK").Field("X-Tok", tok).Field("Content-Length", fmt.Sprint(len(body))).End()
+							w.WriteString(body)
+							pq, _ := http.NewRequest("POST", "http://"+addr+"/agent/response", bytes.NewReader(w.Bytes()))
+							pq.Header.Set("X-Inverting-Proxy-Backend-ID", "bB")
+							pq.Header.Set("X-Inverting-Proxy-Request-ID", id)
+							if ps, err := hc.Do(pq); err == nil {
+								io.Copy(io.Discard, ps.Body)
+								ps.Body.Close()
+							}
+						}(id)
+					}
+				}
+			}(p)
+		}
+		// clients
+		var cwg sync.WaitGroup
+		okTok := map[string]bool{}
+		for k := 0; k < c.clients; k++ {
+			cwg.Add(1)
+			go func(k int) {
+				defer cwg.Done()
+				cl := rawhttp.NewClient(addr, 30*time.Second)
+				defer cl.Close()
+				for i := 0; i < c.perClient; i++ {
+					tok := fmt.Sprintf("s%dB%dk%di%d", r.Seed, ci, k, i)
+					var w rawhttp.Builder
+					w.Line("GET /b/" + tok + " HTTP/1.1").Field("Host", "c04b.example").Field("X-Tok", tok).End()
+					m, err := cl.Do(w.Bytes(), "GET")
+					mu.Lock()
+					if err == nil && m.Status == 200 && string(m.Body) == "resp-for-"+tok {
+						okTok[tok] = true
+					} else if err == nil {
+						r.Violate("C04:client-got-wrong-response", fmt.Sprintf("client %s got status %d body %q", tok, m.Status, core.Trunc(string(m.Body), 60)), nil, nil)
+					}
+					mu.Unlock()
+				}
+			}(k)
+		}
+		cwg.Wait()
+		close(stop)
+		hc.CloseIdleConnections()
+		server.Kill()
+		pwg.Wait()
+		// oracle
+		mu.Lock()
+		issued := map[string]bool{}
+		for _, m := range newIDRe.FindAllStringSubmatch(server.Log(), -1) {
+			issued[m[1]] = true
+		}
+		perTok := map[string][]string{}
+		for id, n := range listed {
+			if n != 1 {
+				r.Violate("C04:id-handed-out-more-than-once", fmt.Sprintf("%d clients / %d pollers: request ID %s appeared in %d pending-list replies (pollers %v)", c.clients, c.pollers, id, n, pollerOf[id]), nil, nil)
+			}
+			if !issued[id] {
+				r.Violate("C04:unknown-id-listed", fmt.Sprintf("request ID %s was listed but never issued", id), nil, nil)
+			}
+			perTok[idTok[id]] = append(perTok[idTok[id]], id)
+		}
+		total := c.clients * c.perClient
+		for k := 0; k < c.clients; k++ {
+			for i := 0; i < c.perClient; i++ {
+				tok := fmt.Sprintf("s%dB%dk%di%d", r.Seed, ci, k, i)
+				if n := len(perTok[tok]); n != 1 {
+					if n == 0 && !okTok[tok] {
+						r.Inconclusive("client " + tok + " got no response and no ID was listed for it")
+						continue
+					}
+					r.Violate("C04:client-request-listed-not-exactly-once", fmt.Sprintf("client request %s corresponds to %d listed IDs %v", tok, n, perTok[tok]), nil, nil)
+				}
+			}
+		}
+		sort.Strings(batches)
+		multi := 0
+		for _, b := range batches {
+			if !strings.HasSuffix(b, ":1") && !strings.HasSuffix(b, ":0") {
+				multi++
+			}
+		}
+		batchSigs[strings.Join(batches, ",")] = struct{}{}
+		mu.Unlock()
+		r.Cases(fmt.Sprintf("B|clients=%d|pollers=%d", c.clients, c.pollers), 1)
+		r.Add("ids_handed_out_part_b", len(listed))
+		r.Add("client_requests_part_b", total)
+		r.Add("multi_id_batches_part_b", multi)
+		if ci == 0 {
+			r.Sample(map[string]interface{}{"part": "B", "clients": c.clients, "pollers": c.pollers, "ids": len(listed), "first_batches": batches[:min(8, len(batches))]})
+		}
+		judgeProcs(r, false, server)
+	}
+	r.Set("poller_batch_signatures", len(batchSigs))
 }
